@@ -214,6 +214,9 @@ func c16Run(c c16Case) Verdict {
 	if staleDone && staleWrote != 0 {
 		return failf("second-close-wrote", "Close of the earlier message's writer, called again while the next message was being written, put %d octets on the wire", staleWrote)
 	}
+	if !ok && lastClientStall {
+		return Verdict{Classes: []string{"unbuffered_transport_flow_stall_unspecified"}}
+	}
 	if !ok && lastClientStuck {
 		return failf("client-hang", "a client call never returns: client and server both wait for each other (recipients %v, LMTP %v, first Close returned %v)", c.Rcpts, c.LMTP, closeErr)
 	}
